@@ -5,6 +5,7 @@
 use serde_json::{json, Value};
 
 pub mod cjson;
+pub mod hashes;
 pub mod pushcond;
 pub mod redact;
 pub mod sign;
@@ -33,6 +34,7 @@ pub fn run(name: &str, tier: &str) -> Option<Value> {
         "redact" => redact::run(tier).to_json(),
         "pushcond" => pushcond::run(tier).to_json(),
         "cjson" => cjson::run(tier).to_json(),
+        "hashes" => hashes::run(tier).to_json(),
         "xmatrix" => xmatrix::run(tier).to_json(),
         "sign" => sign::run(tier).to_json(),
         "uri" => uri::run(tier).to_json(),
